@@ -19,7 +19,9 @@
     On it: [path_elems_h] (pathElems), [to_delete_fixed] (the Elem branch of
     toDeleteNotification as it is since /repo 20c4a71 + 6b65ac8),
     [to_delete_old] (the same branch before 20c4a71:
-    [append(prefix.GetElem(), path.GetElem()...)]), [build_deletes] (the loop
+    [append(prefix.GetElem(), path.GetElem()...)]), [to_delete_element] /
+    [to_delete_atomic] / [to_delete_head] (the other two branches and the
+    switch), [build_deletes] (the loop
     of gnmiRemove: every delete notification is built before the first is
     handed out), [join_h] (joinPrefixAndPath: ToStrings allocates, appends,
     re-slices [1:]) and [dispatch] (the multi-notification branch of
@@ -141,6 +143,38 @@ Definition side (h : heap) (e : slice) (conv : list A) : list cell :=
   if 0 <? s_len e then sread h e else map Some conv.
 Definition want (h : heap) (d : dsrc) : list cell :=
   side h (d_pfx d) (d_pfx_conv d) ++ side h (d_path d) (d_path_conv d).
+
+(** the other two branches of toDeleteNotification (HEAD).  [default:] -- both
+    sides in the deprecated encoding, the slices are [[]string]:
+    [make(0, len(pe)+len(le))] and two appends, no conversion *)
+Definition to_delete_element (h : heap) (d : dsrc) : heap * slice :=
+  let pe := d_pfx d in
+  let le := d_path d in
+  let '(h3, e0) := alloc h (s_len pe + s_len le) in
+  let '(h4, e1) := append h3 e0 (sread h3 pe) in
+  append h4 e1 (sread h4 le).
+
+(** [case n.GetAtomic():] the delete notification is handed the stored prefix
+    slice ITSELF (no append, no copy): it shares the caller's backing array,
+    spare capacity included *)
+Definition to_delete_atomic (h : heap) (d : dsrc) : heap * slice := (h, d_pfx d).
+
+Inductive branch := BAtomic | BElem | BElement.
+
+(** toDeleteNotification (HEAD), the branch taken for [d] given by [br] *)
+Definition to_delete_head (br : dsrc -> branch) (h : heap) (d : dsrc) : heap * slice :=
+  match br d with
+  | BAtomic => to_delete_atomic h d
+  | BElem => to_delete_fixed h d
+  | BElement => to_delete_element h d
+  end.
+
+Definition want_head (br : dsrc -> branch) (h : heap) (d : dsrc) : list cell :=
+  match br d with
+  | BAtomic => sread h (d_pfx d)
+  | BElem => want h d
+  | BElement => sread h (d_pfx d) ++ sread h (d_path d)
+  end.
 
 (** joinPrefixAndPath over index strings: ToStrings(pr, true) makes a slice of
     capacity 20 and appends target, origin and the names ([hd], [names] read
